@@ -198,10 +198,10 @@ theorem k_estimateBlackPoint_eq (bs : List Nat) :
     congr 2
     rw [show (3 : Int) = ((3 : Nat) : Int) from rfl, ishl_natCast, Nat.shiftLeft_eq]
 
--- non-vacuity: peaks at buckets 2 and 5 of 8 → valley 4 → black point 32; a single peak → NotFound
+-- non-vacuity: peaks at buckets 2 and 5 of 8 → valley 4 → black point 32; an empty histogram → NotFound
 when_kernel Gzx.Gen.K17.estimateBlackPoint in
 example : Gen.K17.estimateBlackPoint (words [0, 0, 9, 1, 0, 7, 0, 0]) = .ok (32, false) := by decide +kernel
 when_kernel Gzx.Gen.K17.estimateBlackPoint in
-example : Gen.K17.estimateBlackPoint (words [0, 0, 9, 0, 0, 0, 0, 0]) = .ok (0, true) := by decide +kernel
+example : Gen.K17.estimateBlackPoint (words [0, 0, 0, 0, 0, 0, 0, 0]) = .ok (0, true) := by decide +kernel
 
 end Gzx.Obligations.K17
